@@ -58,6 +58,33 @@ def jw_image(kind, i, j, s):
     return t | (1 << i)
 
 
+def inexact_split(accepted, s, t):
+    """True if every accepted integral of motion has, in exact decimal arithmetic, the same value on Fock states s and t
+    (so that only floating-point rounding of the quantum numbers separates them)"""
+    from fractions import Fraction
+    from decimal import Decimal
+    if not accepted:
+        return False
+    for poly in accepted:
+        vs = Fraction(0); vt = Fraction(0)
+        for coef, ops in poly:
+            if abs(coef[1]) > 0:
+                return False
+            c = Fraction(Decimal(repr(float(coef[0]))))
+            # diagonal monomials only: products of n_i written as c+_i ... c_i (normal ordered: creators then annihilators)
+            cr = sorted(i for d, i in ops if d == 1); an = sorted(i for d, i in ops if d == 0)
+            if cr != an:
+                return False
+            sign = -1 if (len(cr) * (len(cr) - 1) // 2) % 2 else 1     # c+_a c+_b c_a c_b = -n_a n_b for a<b
+            ps = 1; pt = 1
+            for i in cr:
+                ps *= (s >> i) & 1; pt *= (t >> i) & 1
+            vs += c * sign * ps; vt += c * sign * pt
+        if vs != vt:
+            return False
+    return True
+
+
 def execute(case, ctx):
     mdl = case["model"]
     N = M.n_modes(mdl["sites"])
@@ -119,6 +146,10 @@ def execute(case, ctx):
         classes.append("n-or-sz-broken")
     if len(bad):
         s_, t_ = int(rr[bad[0]]), int(cc[bad[0]])
+        if all(inexact_split(run.q("symm")["accepted"], int(rr[b_]), int(cc[b_])) for b_ in bad):
+            # known finding D15: quantum numbers are compared as raw doubles; a linear integral of motion with non-dyadic
+            # coefficients gives sums that are equal in exact arithmetic but differ in the last bit
+            return Result("known", classes + ["known:inexact-quantum-number-sum"], True, None, "inexact-quantum-number-sum")
         return Result("fail", classes + ["cross-block-H"], True, dict(
             run.describe(), what="H has a non-zero element <%d|H|%d> = %r between blocks %d and %d" % (
                 s_, t_, complex(ref.H[s_, t_]), block[s_], block[t_]), accepted=run.q("symm")["accepted"]), "cross-block-H")
